@@ -20,8 +20,8 @@ from ..verdict import Mon
 
 MODES = ['none', 'relative', 'absolute', 'nested-missing-dir', 'relative-subdir']
 MC_OUTPUTS = {1: ['Average Net Electricity Production', 'Electricity breakeven price', 'Total capital costs'],
-              2: ['Average Direct-Use Heat Production', 'Total capital costs'],
-              3: ['Average Net Electricity Production', 'Total capital costs']}
+              2: ['Average Direct-Use Heat Production', 'Direct-Use heat breakeven price (LCOH)', 'Total capital costs'],
+              3: ['Average Net Electricity Production', 'Electricity breakeven price', 'Total capital costs']}
 
 
 def _listing(d):
@@ -147,8 +147,29 @@ def entry_job(text, mode, expect_fail, tag, want_mc=False, enduse=1, namev=0):
                         mon.note('edited-input-fails-on-both-entry-points')
             if want_mc:
                 outs = MC_OUTPUTS[enduse]
-                st = {'program': 'GEOPHIRES', 'inputs': [], 'outputs': outs, 'iterations': 1, 'failure': 0.0,
-                      'text': ''.join(f'OUTPUT, {o}\n' for o in outs) + 'ITERATIONS, 1\n'}
+                # "sampled" inputs with a degenerate distribution (uniform v..v draws exactly v, the value the input already
+                # has): the embedded run then simulates the same parameter set as the command line.  The names are ones
+                # that are proper prefixes of other parameter names ('Inflation Rate During Construction', 'Reservoir Volume
+                # Option', 'Injection Temperature Model', '... Adjustment Factor').
+                have = {}
+                for ln in text.split('\n'):
+                    parts = ln.split(',')
+                    if len(parts) >= 2 and not ln.lstrip().startswith(('#', '--', '*')):
+                        have[parts[0].strip()] = parts[1].strip()
+                degenerate = []
+                for nm, dflt in (('Inflation Rate', 0.02), ('Reservoir Volume', None), ('Injection Temperature', None),
+                                 ('Surface Plant Capital Cost', None), ('Exploration Capital Cost', None)):
+                    v = have.get(nm, dflt)
+                    try:
+                        if v is not None and len(str(v).split()) == 1 and namev % 2 == 0:
+                            degenerate.append((nm, ['uniform', float(v), float(v)]))
+                    except ValueError:
+                        pass
+                st = {'program': 'GEOPHIRES', 'inputs': degenerate, 'outputs': outs, 'iterations': 1, 'failure': 0.0,
+                      'text': ''.join(f'INPUT, {nm}, uniform, {d[1]!r}, {d[2]!r}\n' for nm, d in degenerate)
+                      + ''.join(f'OUTPUT, {o}\n' for o in outs) + 'ITERATIONS, 1\n'}
+                if degenerate:
+                    mon.note('mc-embedded-run-with-degenerate-sampled-inputs')
                 res = mc.run_mc(st, workers=1, base_text=text)
                 if res.get('result_text'):
                     header, rows, bad, stats = mc.parse_result(res['result_text'], st)
@@ -251,11 +272,16 @@ def run(ctx):
     n_ok = ctx.pick(40, 400)
     for i in range(n_ok):
         cell = cells[i % len(cells)]
-        text = gen.render(gen.synth_case(rng, cell, overpressure=False))
+        case = gen.synth_case(rng, cell, overpressure=False)
         mode = MODES[i % len(MODES)]
         eu = 1 if cell[1] == 1 else (2 if cell[1] == 2 else 3)
         if cell[1] == 2 and cell[2] == 5:
             eu = None
+        if eu is not None and i % 4 == 0:
+            # the Monte-Carlo cases: a parameter whose name extends a "sampled" name carries a non-default value that the
+            # requested levelized cost depends on
+            gen.cset(case, 'Inflation Rate During Construction', gen._round(rng.uniform(0.02, 0.15), 3))
+        text = gen.render(case)
         jobs.append({'fn': 'gxv.props.c20:entry_job', 'timeout': 900,
                      'args': {'text': text, 'mode': mode, 'expect_fail': False, 'tag': {'cell': list(cell)},
                               'want_mc': eu is not None and i % 4 == 0, 'enduse': eu or 1, 'namev': i // len(MODES)}})
